@@ -30,6 +30,7 @@ class PyRaise(Exception):
 
 class Env:
     __slots__ = ('vars', 'parent', 'nonlocals')
+    written = None        # set of names assigned while a loop spec's havoc hook runs
 
     def __init__(self, vars=None, parent=None):
         self.vars = vars if vars is not None else {}
@@ -53,6 +54,8 @@ class Env:
         return False
 
     def set(self, name, v):
+        if Env.written is not None:
+            Env.written.add(name)
         if name in self.nonlocals:
             e = self.parent
             while e is not None:
@@ -89,6 +92,22 @@ class MaybeStale:
         return SymObj('<stale>', name=self.name)
 
 
+class InitOrStale:
+    """A local bound before the loop to a value the engine cannot havoc (None, an object, a string) and rebound
+    in the loop body: at an arbitrary iteration it holds either that initial value or a value of an earlier iteration."""
+    def __init__(self, name, init):
+        self.name, self.init = name, init
+
+    def sym_read(self, I, name):
+        if I.e.branch(I.e.bool(f'{self.name}_still_initial'), f'{self.name} still initial?'):
+            return self.init
+        obj = SymObj('<stale>', name=self.name)
+        if I.reg and getattr(I.reg, 'on_stale_use', None):
+            I.reg.on_stale_use(I, obj, None)
+            raise PathEnd()
+        return obj
+
+
 class LoopSpec:
     """Inductive invariant for one loop, keyed by (function qualname, ordinal).
 
@@ -100,7 +119,8 @@ class LoopSpec:
     unroll             -> int: unroll that many times instead of cutting (concrete bound)
     """
     def __init__(self, inv=None, havoc=None, decreases=None, carried=None, index=None,
-                 frame=None, step=None, on_head=None, on_init=None):
+                 frame=None, step=None, on_head=None, on_init=None, keep=()):
+        self.keep = tuple(keep)     # loop-carried locals that deliberately keep their pre-loop (symbolic) value
         self.step = step
         self.on_head = on_head
         self.on_init = on_init
@@ -704,6 +724,10 @@ class Interp:
                 # a local bound in an earlier loop iteration is used in the current one
                 self.reg.on_stale_use(self, obj, name)
                 raise PathEnd()
+            if self.reg and obj.cls in getattr(self.reg, 'strict_attr_classes', ()):
+                # the model lists every attribute the real object has (e.g. an argparse namespace built from
+                # the real parser definition): a missing one is an AttributeError of the code
+                self.raise_('AttributeError', name)
             if self.repo.get_class(obj.cls) is None:
                 # a sidecar model object: a missing attribute is a gap of the model, not of the code
                 self.unsupported(node, f'attribute {name} of modelled object {obj.cls}')
@@ -957,10 +981,11 @@ class Interp:
             if i == len(n.values) - 1:
                 return v
             t = self.test(v, 'and' if is_and else 'or')
+            # Python returns the operand itself; a symbolic Bool operand is known on this path
             if is_and and not t:
-                return v if not is_z3(v) else False
+                return False if isinstance(v, z3.BoolRef) else v
             if not is_and and t:
-                return v if not is_z3(v) else True
+                return True if isinstance(v, z3.BoolRef) else v
         return v
 
     def e_Compare(self, n, env):
@@ -2226,6 +2251,7 @@ class Interp:
             e.prove(f'{tag}/init/{nm}', g)
         # --- havoc
         target_names = assigned_names([ast.Assign(targets=[s.target], value=ast.Constant(0))]) if isinstance(s, ast.For) else []
+        unhavocked = []
         for nm in body_names:
             if nm in target_names and nm not in spec.carried:
                 continue      # (re)bound from the iterable at the start of every iteration
@@ -2244,6 +2270,7 @@ class Interp:
             if nv is None:
                 if spec.havoc is None:
                     raise Unsupported(f'{tag}: cannot havoc loop-carried {nm}={cur!r}')
+                unhavocked.append((nm, cur))
                 continue
             env.set(nm, nv)
         k = e.int(idxname)
@@ -2254,8 +2281,17 @@ class Interp:
         if view is not None:
             n = view.length()
             e.assume(k <= n)
-        if spec.havoc:
-            spec.havoc(self, env, k)
+        Env.written = set()
+        try:
+            if spec.havoc:
+                spec.havoc(self, env, k)
+            assigned_by_spec = set(Env.written)
+        finally:
+            Env.written = None
+        for nm, cur in unhavocked:
+            # the loop spec did not replace it: initial value or a value of an earlier iteration
+            if nm not in assigned_by_spec and nm not in getattr(spec, 'keep', ()):
+                env.set(nm, InitOrStale(nm, cur))
         for nm, g in inv_items(k):
             e.assume(g)
         if spec.on_head:
